@@ -24,6 +24,8 @@ def lit(s):
 
 
 def piece(rng):
+    if rng.random() < 0.12:
+        return "".join(rng.choice(CH) for _ in range(rng.choice([8, 15, 16, 17, 31, 32, 33, 64])))
     n = rng.choice([0, 1, 1, 2, 3])
     return "".join(rng.choice(CH) for _ in range(n))
 
@@ -68,7 +70,7 @@ def gen(rng, i):
     if kind == "join":
         sep_kind = rng.choice(["str", "str", "char"])
         if sep_kind == "str":
-            sep = rng.choice(["", ",", ", ", "é", "漢", "😀", "a😀é"])
+            sep = rng.choice(["", ",", ", ", "é", "漢", "😀", "a😀é", "0123456789abcdef", "é" * 17])
             sep_tok = lit(sep)
         else:
             sep = rng.choice([",", "é", "漢", "😀", " "])
